@@ -1,27 +1,40 @@
 // sinks: T-gen for property C17 (secrets never reach logs).
 //
-// Reads the working tree of the repository (go/pkg/..., files without the `verif` build tag,
-// no tests), runs a small interprocedural taint analysis on the syntax trees (go/ast only) and
-// emits lean/NA/Gen/Sinks.lean: every call that writes to a sink (errlog.DoLog / Info / Warning /
-// Abort / PrintWithMarker, fmt.Fprint*, fmt.Print*, logHistory, warn, abort, *.Write, logString)
-// inside a function in which a secret is in scope, with the text of its arguments and the taint
-// class of what it writes.
+// Reads the working tree of the repository (go/pkg/..., files without the `verif` build tag, no
+// tests), type-checks all packages of the module in dependency order (go/types; dependencies from
+// export data of `go list -export`, else from source) and runs an interprocedural taint analysis.
+// It emits lean/NA/Gen/Sinks.lean:
 //
-// Secrets (seeds): result 1 of GetUserPass / getSystemPassword, result 0 of askPassword and
-// term.ReadPassword, the field Password (label pass); result 0 of parseAPIKey and whatever is
-// passed to parseAPIKey (label key); Header.Get("x-xsrf-token") (label token); cookiejar.New
+//   - sites      EVERY call in the module that writes to a sink, with the sink kind
+//     (session log .login/.config/.change/.cmp, run log, history file, status file, stdout,
+//     stderr, temporary file), the text of its arguments and the taint class of what it writes;
+//   - errSources every call that can return an error whose text embeds a request URL
+//     ((*http.Client).Get/Do/PostForm, http.NewRequest, url.Parse) — the failure kinds — with the
+//     secrets that URL carries;
+//   - errFlows   for every failure kind and every sink site its error text reaches: whether it is
+//     still raw there and which redaction steps it passed.
+//
+// Calls are resolved through go/types: static calls to their *types.Func, interface method calls to
+// the methods of every module type that implements the interface, calls of closure variables and of
+// function-typed parameters to the function literals bound / passed.
+//
+// Secrets (seeds): result 1 of Config.GetUserPass / getSystemPassword, result 0 of askPassword and
+// term.ReadPassword, the field Config.Password (label pass); result 0 of panos.parseAPIKey and
+// whatever is passed to it (label key); Header.Get("x-xsrf-token") (label token); cookiejar.New
 // (label cookie).
+// Propagation: assignments (strong update of plain variables, join after branches), struct fields
+// (by field object), string building (any call or operator over a labelled operand is labelled),
+// parameters of module functions and closures (fixpoint), returned values as summaries over
+// parameter markers (context-sensitive, sanitiser-aware).
+// Boundary: data results of Get/Do/PostForm/Expect are device output (clean); their error result,
+// and that of http.NewRequest / url.Parse, embeds the URL: it carries the labels of the URL argument
+// tagged with the id of the call (`T:key@<id>`) plus the neutral label `U@<id>`.  Header.Set/Add
+// taint nothing; errors of xml/json.Unmarshal are clean.
+// Sanitisers — the ONLY ones: passRE.ReplaceAllString turns pass into M:passRE, keyRE / apiRE turn
+// key into M:keyRE / M:apiRE.
 //
-// Propagation: assignments (strong update of plain identifiers, join after branches), struct
-// fields by name, string building (any call or operator over a tainted operand is tainted),
-// parameters of module functions and closures (fixpoint), returned values (fixpoint).
-// Network boundary (Get, Do, PostForm, Expect): data results are device output (clean); the error
-// result carries the labels of the URL argument (Go's *url.Error embeds the URL), not those of
-// headers or form values.  `X.Header.Set` taints nothing.
-// Sanitisers: passRE.ReplaceAllString turns label pass into M:passRE, keyRE / apiRE turn label key
-// into M:keyRE / M:apiRE.
-//
-// taintCode of a site: 0 = no label, 1 = only masked labels, 9 = at least one raw label.
+// taintCode of a site: 0 = no secret label, 1 = only masked labels, 9 = at least one raw label.
+// A construct the translator does not understand is an error (exit 1), never skipped.
 package main
 
 import (
@@ -29,15 +42,23 @@ import (
 	"flag"
 	"fmt"
 	"go/ast"
+	"go/importer"
 	"go/parser"
 	"go/printer"
 	"go/token"
+	"go/types"
 	"hash/fnv"
+	"io"
 	"os"
+	"os/exec"
 	"path/filepath"
 	"sort"
 	"strings"
 )
+
+const modPrefix = "github.com/hknutzen/Netspoc-Approve/go/pkg/"
+
+// ---------------------------------------------------------------- labels
 
 type labels map[string]bool
 
@@ -70,15 +91,16 @@ func (l labels) String() string {
 	return strings.Join(ks, "+")
 }
 func (l labels) code() int {
-	if len(l) == 0 {
-		return 0
-	}
+	c := 0
 	for k := range l {
-		if strings.HasPrefix(k, "T:") {
+		switch {
+		case strings.HasPrefix(k, "T:"):
 			return 9
+		case strings.HasPrefix(k, "M:"):
+			c = 1
 		}
 	}
-	return 1
+	return c
 }
 func union(ls ...labels) labels {
 	r := labels{}
@@ -89,49 +111,68 @@ func union(ls ...labels) labels {
 }
 func lab(s string) labels { return labels{s: true} }
 
+// ---------------------------------------------------------------- program
+
 type fn struct {
-	key    string // pkg.Recv.Name or pkg.Name, closures: parent$name
-	pkg    string
-	name   string // bare name
-	params []string
-	body   *ast.BlockStmt
-	nres   int
-	top    *fn // enclosing top-level function
-	file   *ast.File
+	key     string // pkg.Recv.Name / pkg.Name, closures: parent$name or parent$litN
+	pkg     string
+	params  []*types.Var
+	recv    *types.Var
+	body    *ast.BlockStmt
+	nres    int
+	top     *fn
+	parent  *fn
+	wrapper string // this function is itself a sink: kind of what it writes
 }
 
 type site struct {
-	pkg, fn, sink, arg string
-	lbl                labels
+	pkg, fn, sink, kind, arg string
+	lbl                      labels
+}
+
+type source struct {
+	id, fn, call, url string
 }
 
 var (
 	fset       = token.NewFileSet()
-	funcs      = map[string]*fn{}
-	byName     = map[string][]*fn{}
-	paramTaint = map[string][]labels{} // fn key -> per parameter
-	retTaint   = map[string][]labels{} // fn key -> per result
-	fieldTaint = map[string]labels{}
-	litTargets = map[string][]*fn{} // "fnkey#paramname" -> closures passed for that parameter
+	info       *types.Info
+	fnByObj    = map[*types.Func]*fn{}
+	fnByLit    = map[*ast.FuncLit]*fn{}
+	litVar     = map[*types.Var]*fn{}    // name := func …
+	litTargets = map[*types.Var][]*fn{}  // function-typed parameter -> closures passed for it
+	named      []*types.Named            // every named type declared in the module
+	paramTaint = map[*fn][]labels{}
+	retTaint   = map[*fn][]labels{}
+	fieldTaint = map[*types.Var]labels{}
+	passwordF  *types.Var // program.Config.Password
 	changed    bool
 	symbolic   bool // pass that computes return summaries over parameter markers P:<fn>:<i>
 	recording  bool
 	sites      []site
-	touched    = map[string]bool{} // top-level fn key -> a secret is in scope
+	sources    = map[string]source{}
+	touched    = map[*fn]bool{}
 	problems   []string
+	order      []*fn
+	fnByKey    = map[string]*fn{}
 )
 
-var sinkNames = map[string]bool{
-	"errlog.DoLog": true, "errlog.Info": true, "errlog.Warning": true, "errlog.Abort": true, "errlog.PrintWithMarker": true,
-	"DoLog": true, "Info": true, "Warning": true, "Abort": true, "PrintWithMarker": true,
-	"fmt.Fprint": true, "fmt.Fprintf": true, "fmt.Fprintln": true, "fmt.Print": true, "fmt.Printf": true, "fmt.Println": true,
-	"logHistory": true, "warn": true, "abort": true, "logString": true,
-	"log.Printf": true, "log.Print": true, "log.Println": true, "os.WriteFile": true,
+// sink wrappers of the module: calls to them are sink sites; the primitive writes inside them are
+// listed with class "wrapper"
+var wrappers = map[string]string{
+	modPrefix + "errlog.DoLog": "session", modPrefix + "errlog.Info": "runlog", modPrefix + "errlog.Warning": "runlog",
+	modPrefix + "errlog.Abort": "runlog", modPrefix + "errlog.PrintWithMarker": "runlog",
+	modPrefix + "doapprove.logHistory": "history", modPrefix + "doapprove.abort": "stderr", modPrefix + "drc.abort": "stderr",
+	modPrefix + "program.warn": "stderr", "(*" + modPrefix + "console.Conn).logString": "session",
 }
 
 var seedCalls = map[string]map[int]string{
-	"GetUserPass": {1: "T:pass"}, "getSystemPassword": {1: "T:pass"}, "askPassword": {0: "T:pass"},
-	"ReadPassword": {0: "T:pass"}, "parseAPIKey": {0: "T:key"}, "New#cookiejar": {0: "T:cookie"},
+	"(*" + modPrefix + "program.Config).GetUserPass":       {1: "T:pass"},
+	"(*" + modPrefix + "program.Config).getSystemPassword": {1: "T:pass"},
+	"(*" + modPrefix + "program.Config).askPassword":       {0: "T:pass"},
+	"golang.org/x/term.ReadPassword":                       {0: "T:pass"},
+	modPrefix + "panos.parseAPIKey":                        {0: "T:key"},
+	"net/http/cookiejar.New":                               {0: "T:cookie"},
 }
 
 var sanitizers = map[string]map[string]string{
@@ -141,11 +182,10 @@ var sanitizers = map[string]map[string]string{
 }
 
 var cleanCalls = map[string]bool{
-	"len": true, "cap": true, "make": true, "new": true, "strings.HasPrefix": true, "strings.HasSuffix": true,
-	"strings.Contains": true, "strings.ContainsAny": true, "strings.Index": true, "strings.LastIndex": true,
-	"strings.EqualFold": true, "strings.Count": true, "errors.Is": true, "errors.As": true,
-	"xml.Unmarshal": true, "json.Unmarshal": true,
-	"os.Getenv": true, "time.Duration": true, "time.Sleep": true, "recover": true,
+	"strings.HasPrefix": true, "strings.HasSuffix": true, "strings.Contains": true, "strings.ContainsAny": true,
+	"strings.Index": true, "strings.LastIndex": true, "strings.EqualFold": true, "strings.Count": true,
+	"errors.Is": true, "errors.As": true, "encoding/xml.Unmarshal": true, "encoding/json.Unmarshal": true,
+	"os.Getenv": true, "time.Sleep": true, "regexp.MustCompile": true,
 }
 
 func exprText(e ast.Node) string {
@@ -154,43 +194,51 @@ func exprText(e ast.Node) string {
 	return strings.Join(strings.Fields(b.String()), " ")
 }
 
-func setLabels(m map[string][]labels, key string, i int, l labels) {
-	for len(m[key]) <= i {
-		m[key] = append(m[key], labels{})
+func hash32(s string) uint32 {
+	h := fnv.New32a()
+	h.Write([]byte(s))
+	return h.Sum32()
+}
+
+func setLabels(m map[*fn][]labels, f *fn, i int, l labels) {
+	for len(m[f]) <= i {
+		m[f] = append(m[f], labels{})
 	}
-	if m[key][i].add(l) {
+	if m[f][i].add(l) {
 		changed = true
 	}
 }
-func getLabels(m map[string][]labels, key string, i int) labels {
-	if i < len(m[key]) {
-		return m[key][i]
+func getLabels(m map[*fn][]labels, f *fn, i int) labels {
+	if i < len(m[f]) {
+		return m[f][i]
 	}
 	return labels{}
 }
 
-func marker(key string, i int) string { return fmt.Sprintf("P:%s:%d", key, i) }
+func marker(f *fn, i int) string { return fmt.Sprintf("P:%s:%d", f.key, i) }
 
-// paramLabels: what a parameter holds — its marker in the symbolic pass, the joined labels of all
-// call sites in the concrete pass.
-func paramLabels(key string, i int) labels {
+func paramLabels(f *fn, i int) labels {
 	if symbolic {
-		return lab(marker(key, i))
+		return lab(marker(f, i))
 	}
-	return getLabels(paramTaint, key, i).clone()
+	return getLabels(paramTaint, f, i).clone()
 }
 
-// sanitize applies the conversion of one sanitiser to a set of labels; parameter markers are
-// wrapped ("S:<re>|<marker>") so that the conversion happens when the marker is substituted.
+// sanitize applies one sanitiser; parameter markers are wrapped so that the conversion happens when
+// the marker is substituted.  Provenance (`@id`) is kept.
 func sanitize(re string, l labels) labels {
 	conv := sanitizers[re]
 	r := labels{}
 	for k := range l {
 		switch {
-		case strings.HasPrefix(k, "P:") || strings.HasPrefix(k, "S:"):
+		case strings.HasPrefix(k, "P:") || strings.HasPrefix(k, "S:") || strings.HasPrefix(k, "B:"):
 			r["S:"+re+"|"+k] = true
 		default:
-			if m, ok := conv[k]; ok {
+			base, at, _ := strings.Cut(k, "@")
+			if m, ok := conv[base]; ok {
+				if at != "" {
+					m += "@" + at
+				}
 				r[m] = true
 			} else {
 				r[k] = true
@@ -200,12 +248,15 @@ func sanitize(re string, l labels) labels {
 	return r
 }
 
-// subst replaces parameter markers through lookup (which may decline).
 func subst(k string, lookup func(key string, i int) (labels, bool)) labels {
 	switch {
 	case strings.HasPrefix(k, "S:"):
 		bar := strings.Index(k, "|")
 		return sanitize(k[2:bar], subst(k[bar+1:], lookup))
+	case strings.HasPrefix(k, "B:"):
+		// error of a boundary call whose URL is a parameter: B:<id>|<marker>
+		bar := strings.Index(k, "|")
+		return atSource(k[2:bar], subst(k[bar+1:], lookup))
 	case strings.HasPrefix(k, "P:"):
 		j := strings.LastIndex(k, ":")
 		var i int
@@ -217,15 +268,36 @@ func subst(k string, lookup func(key string, i int) (labels, bool)) labels {
 	return lab(k)
 }
 
-// resolve replaces markers that cannot be substituted at this call site: in the concrete pass by
-// the joined labels of that parameter.
+// atSource tags the labels of a URL with the id of the call whose error embeds that URL.
+func atSource(id string, l labels) labels {
+	r := labels{}
+	for k := range l {
+		switch {
+		case strings.HasPrefix(k, "P:") || strings.HasPrefix(k, "S:") || strings.HasPrefix(k, "B:"):
+			r["B:"+id+"|"+k] = true
+		case strings.Contains(k, "@"):
+			r[k] = true // already attributed to an earlier call (http.NewRequest before Do)
+		case strings.HasPrefix(k, "U"):
+		default:
+			r[k+"@"+id] = true
+		}
+	}
+	r["U@"+id] = true
+	return r
+}
+
 func resolve(l labels) labels {
 	if symbolic {
 		return l
 	}
 	r := labels{}
 	for k := range l {
-		r.add(subst(k, func(key string, i int) (labels, bool) { return getLabels(paramTaint, key, i), true }))
+		r.add(subst(k, func(key string, i int) (labels, bool) {
+			if f := fnByKey[key]; f != nil {
+				return getLabels(paramTaint, f, i), true
+			}
+			return labels{}, true
+		}))
 	}
 	return r
 }
@@ -233,7 +305,7 @@ func resolve(l labels) labels {
 func concreteOnly(l labels) labels {
 	r := labels{}
 	for k := range l {
-		if !strings.HasPrefix(k, "P:") && !strings.HasPrefix(k, "S:") {
+		if strings.HasPrefix(k, "T:") || strings.HasPrefix(k, "M:") {
 			r[k] = true
 		}
 	}
@@ -244,24 +316,31 @@ func concreteOnly(l labels) labels {
 
 type analysis struct {
 	f       *fn
-	env     map[string]labels
-	isParam map[string]bool // receiver and parameters of the top-level function and of enclosing closures
-	local   map[string]*fn  // closures bound to local names
-	imports map[string]bool
-	sticky  map[string]labels
-	litNo   int
-	sinkOrd map[string]int
+	env     map[types.Object]labels
+	isParam map[types.Object]bool
+	sticky  map[types.Object]labels
 }
 
 func (a *analysis) touch(l labels) labels {
 	if len(concreteOnly(l)) > 0 {
-		touched[a.f.top.key] = true
+		touched[a.f.top] = true
 	}
 	return l
 }
 
-func (a *analysis) lookup(name string) labels {
-	return union(a.env[name], a.sticky[name])
+func objOf(id *ast.Ident) types.Object {
+	if o := info.Uses[id]; o != nil {
+		return o
+	}
+	return info.Defs[id]
+}
+
+func isPkgName(e ast.Expr) bool {
+	if id, ok := e.(*ast.Ident); ok {
+		_, ok := objOf(id).(*types.PkgName)
+		return ok
+	}
+	return false
 }
 
 func rootIdent(e ast.Expr) *ast.Ident {
@@ -281,6 +360,8 @@ func rootIdent(e ast.Expr) *ast.Ident {
 			e = x.X
 		case *ast.UnaryExpr:
 			e = x.X
+		case *ast.CallExpr:
+			return nil
 		default:
 			return nil
 		}
@@ -293,14 +374,24 @@ func (a *analysis) eval(e ast.Expr) labels {
 	}
 	switch x := e.(type) {
 	case *ast.Ident:
-		return a.touch(a.lookup(x.Name))
+		o := objOf(x)
+		if o == nil {
+			return labels{}
+		}
+		return a.touch(union(a.env[o], a.sticky[o]))
 	case *ast.BasicLit:
 		return labels{}
 	case *ast.SelectorExpr:
-		if id, ok := x.X.(*ast.Ident); ok && a.imports[id.Name] {
+		if isPkgName(x.X) {
 			return labels{}
 		}
-		return a.touch(union(a.eval(x.X), fieldTaint[x.Sel.Name]))
+		r := a.eval(x.X)
+		if sel := info.Selections[x]; sel != nil && sel.Kind() == types.FieldVal {
+			if v, ok := sel.Obj().(*types.Var); ok {
+				r = union(r, fieldTaint[v])
+			}
+		}
+		return a.touch(r)
 	case *ast.CallExpr:
 		return union(a.evalCall(x)...)
 	case *ast.BinaryExpr:
@@ -336,7 +427,7 @@ func (a *analysis) eval(e ast.Expr) labels {
 		}
 		return r
 	case *ast.FuncLit:
-		a.closure(x, "")
+		a.closure(x)
 		return labels{}
 	case *ast.ArrayType, *ast.MapType, *ast.StructType, *ast.InterfaceType, *ast.FuncType, *ast.ChanType, *ast.Ellipsis:
 		return labels{}
@@ -345,42 +436,21 @@ func (a *analysis) eval(e ast.Expr) labels {
 	return labels{}
 }
 
-// closure registers (once per position) and analyses a function literal in the current environment.
-func (a *analysis) closure(lit *ast.FuncLit, name string) *fn {
-	a.litNo++
-	if name == "" {
-		name = fmt.Sprintf("lit%d", a.litNo)
-	}
-	key := a.f.key + "$" + name
-	c := funcs[key]
+// closure analyses a function literal in the current environment.
+func (a *analysis) closure(lit *ast.FuncLit) *fn {
+	c := fnByLit[lit]
 	if c == nil {
-		c = &fn{key: key, pkg: a.f.pkg, name: name, body: lit.Body, top: a.f.top, file: a.f.file}
-		for _, p := range lit.Type.Params.List {
-			for _, n := range p.Names {
-				c.params = append(c.params, n.Name)
-			}
-		}
-		if lit.Type.Results != nil {
-			for _, r := range lit.Type.Results.List {
-				k := len(r.Names)
-				if k == 0 {
-					k = 1
-				}
-				c.nres += k
-			}
-		}
-		funcs[key] = c
+		problems = append(problems, fmt.Sprintf("%s: function literal not registered", a.f.key))
+		return nil
 	}
-	sub := &analysis{f: c, env: a.env, isParam: a.isParam, local: a.local, imports: a.imports, sticky: a.sticky,
-		sinkOrd: a.sinkOrd}
-	saved := map[string]labels{}
+	sub := &analysis{f: c, env: a.env, isParam: a.isParam, sticky: a.sticky}
+	saved := map[types.Object]labels{}
 	for i, p := range c.params {
 		saved[p] = a.env[p]
-		a.env[p] = paramLabels(key, i)
+		a.env[p] = paramLabels(c, i)
 		a.touch(a.env[p])
 	}
 	sub.block(c.body)
-	a.litNo += sub.litNo
 	for p, l := range saved {
 		if l == nil {
 			delete(a.env, p)
@@ -391,35 +461,197 @@ func (a *analysis) closure(lit *ast.FuncLit, name string) *fn {
 	return c
 }
 
-func calleeText(c *ast.CallExpr) (text, sel string, recv ast.Expr) {
-	switch f := c.Fun.(type) {
-	case *ast.Ident:
-		return f.Name, f.Name, nil
-	case *ast.SelectorExpr:
-		return exprText(f), f.Sel.Name, f.X
+// callee: full name of the called function (external: types.Func.FullName), the module
+// functions / closures it may resolve to, and the receiver expression of a method call.
+func (a *analysis) callee(c *ast.CallExpr) (full string, ts []*fn, recv ast.Expr, obj types.Object) {
+	fun := c.Fun
+	for {
+		if p, ok := fun.(*ast.ParenExpr); ok {
+			fun = p.X
+		} else {
+			break
+		}
 	}
-	return exprText(c.Fun), "", nil
+	switch f := fun.(type) {
+	case *ast.Ident:
+		obj = objOf(f)
+		switch o := obj.(type) {
+		case *types.Func:
+			full = o.FullName()
+			if t := fnByObj[o]; t != nil {
+				ts = []*fn{t}
+			}
+		case *types.Var:
+			if t := litVar[o]; t != nil {
+				ts = []*fn{t}
+			} else {
+				ts = litTargets[o]
+			}
+			full = "var " + o.Name()
+		case *types.Builtin:
+			full = "builtin " + o.Name()
+		}
+	case *ast.SelectorExpr:
+		if sel := info.Selections[f]; sel != nil {
+			recv = f.X
+			obj = sel.Obj()
+			if m, ok := obj.(*types.Func); ok {
+				full = m.FullName()
+				if t := fnByObj[m]; t != nil {
+					ts = []*fn{t}
+				} else if types.IsInterface(sel.Recv()) || isInterfaceMethod(m) {
+					ts = implementations(m)
+				}
+			} else if v, ok := obj.(*types.Var); ok {
+				full = "field " + v.Name()
+			}
+		} else if o, ok := objOf(f.Sel).(*types.Func); ok {
+			obj = o
+			full = o.FullName()
+			if t := fnByObj[o]; t != nil {
+				ts = []*fn{t}
+			}
+		}
+	case *ast.FuncLit:
+		if t := fnByLit[f]; t != nil {
+			ts = []*fn{t}
+		}
+		full = "funclit"
+	}
+	return
+}
+
+func isInterfaceMethod(m *types.Func) bool {
+	sig, _ := m.Type().(*types.Signature)
+	return sig != nil && sig.Recv() != nil && types.IsInterface(sig.Recv().Type())
+}
+
+// implementations: the methods of every module type that implements the interface declaring m.
+func implementations(m *types.Func) []*fn {
+	sig, _ := m.Type().(*types.Signature)
+	if sig == nil || sig.Recv() == nil {
+		return nil
+	}
+	iface, _ := sig.Recv().Type().Underlying().(*types.Interface)
+	if iface == nil {
+		return nil
+	}
+	var r []*fn
+	for _, n := range named {
+		for _, t := range []types.Type{n, types.NewPointer(n)} {
+			if _, isI := n.Underlying().(*types.Interface); isI {
+				continue
+			}
+			if types.Implements(t, iface) {
+				o, _, _ := types.LookupFieldOrMethod(t, true, m.Pkg(), m.Name())
+				if mf, ok := o.(*types.Func); ok {
+					if f := fnByObj[mf]; f != nil {
+						dup := false
+						for _, x := range r {
+							dup = dup || x == f
+						}
+						if !dup {
+							r = append(r, f)
+						}
+					}
+				}
+			}
+		}
+	}
+	return r
+}
+
+func isBuilderWriter(e ast.Expr) bool {
+	t := info.TypeOf(e)
+	if t == nil {
+		return false
+	}
+	s := t.String()
+	return strings.Contains(s, "strings.Builder") || strings.Contains(s, "bytes.Buffer")
+}
+
+// sinkOf: is this call a write to a sink?  Returns the short sink name and the sink kind.
+func (a *analysis) sinkOf(full string, c *ast.CallExpr, recv ast.Expr) (sink, kind string, args []ast.Expr, ok bool) {
+	if k, isW := wrappers[full]; isW {
+		name := strings.TrimPrefix(full, modPrefix)
+		name = strings.TrimPrefix(name, "(*"+modPrefix)
+		name = strings.Replace(name, ").", ".", 1)
+		args = c.Args
+		if k == "session" && len(args) > 1 {
+			args = args[1:] // the file handle
+		}
+		return name, k, args, true
+	}
+	writerKind := func(w ast.Expr) string {
+		switch x := w.(type) {
+		case *ast.SelectorExpr:
+			if isPkgName(x.X) && x.Sel.Name == "Stderr" {
+				return "stderr"
+			}
+			if isPkgName(x.X) && x.Sel.Name == "Stdout" {
+				return "stdout"
+			}
+		case *ast.Ident:
+			if x.Name == "stderrLog" {
+				return "runlog"
+			}
+		}
+		switch {
+		case a.f.top.wrapper != "":
+			return a.f.top.wrapper
+		case a.f.pkg == "device":
+			return "session" // <device>.cmp
+		case a.f.pkg == "linux":
+			return "tempfile" // scp source
+		case a.f.pkg == "status":
+			return "status"
+		}
+		return "file"
+	}
+	switch full {
+	case "fmt.Fprint", "fmt.Fprintf", "fmt.Fprintln":
+		if len(c.Args) == 0 || isBuilderWriter(c.Args[0]) {
+			return "", "", nil, false
+		}
+		return full, writerKind(c.Args[0]), c.Args[1:], true
+	case "fmt.Print", "fmt.Printf", "fmt.Println":
+		return full, "stdout", c.Args, true
+	case "(*os.File).Write", "(*os.File).WriteString":
+		return full, writerKind(recv), c.Args, true
+	case "io.WriteString":
+		if len(c.Args) == 2 && !isBuilderWriter(c.Args[0]) {
+			return full, writerKind(c.Args[0]), c.Args[1:], true
+		}
+	case "os.WriteFile":
+		return full, writerKind(nil), c.Args[1:2], true
+	case "log.Print", "log.Printf", "log.Println", "log.Fatal", "log.Fatalf":
+		return full, "stderr", c.Args, true
+	}
+	return "", "", nil, false
+}
+
+func (a *analysis) sourceID(c *ast.CallExpr) string {
+	base := a.f.key + "|" + exprText(c)
+	id := fmt.Sprintf("%d", hash32(base)%100000)
+	return id
 }
 
 // evalCall returns the labels of every result of the call.
 func (a *analysis) evalCall(c *ast.CallExpr) []labels {
-	text, sel, recv := calleeText(c)
+	full, ts, recv, _ := a.callee(c)
 	argL := make([]labels, len(c.Args))
 	for i, arg := range c.Args {
 		if lit, ok := arg.(*ast.FuncLit); ok {
-			// closure passed to a function: a possible target of that function's parameter
-			cl := a.closure(lit, "")
-			for _, t := range a.targets(text, sel, recv) {
-				if i < len(t.params) {
-					k := t.key + "#" + t.params[i]
+			cl := a.closure(lit)
+			for _, t := range ts {
+				if i < len(t.params) && cl != nil {
+					p := t.params[i]
 					found := false
-					for _, x := range litTargets[k] {
-						if x == cl {
-							found = true
-						}
+					for _, x := range litTargets[p] {
+						found = found || x == cl
 					}
 					if !found {
-						litTargets[k] = append(litTargets[k], cl)
+						litTargets[p] = append(litTargets[p], cl)
 						changed = true
 					}
 				}
@@ -430,42 +662,35 @@ func (a *analysis) evalCall(c *ast.CallExpr) []labels {
 		argL[i] = a.eval(arg)
 	}
 	all := union(argL...)
-	recvPkg := false
-	if id, ok := recv.(*ast.Ident); ok && a.imports[id.Name] {
-		recvPkg = true
-	}
-	var recvL labels
-	if recv != nil && !recvPkg {
+	recvL := labels{}
+	if recv != nil {
 		recvL = a.eval(recv)
-	} else {
-		recvL = labels{}
 	}
 
-	if recording && sinkNames[text] || recording && recv != nil && !recvPkg && (sel == "Write" || sel == "WriteString") {
-		a.record(text, c, all)
+	if sink, kind, sargs, ok := a.sinkOf(full, c, recv); ok && recording && !symbolic {
+		l := labels{}
+		for _, sa := range sargs {
+			l.add(a.eval(sa))
+		}
+		a.record(sink, kind, sargs, l)
 	}
 
 	// conversions and builtins
-	switch f := c.Fun.(type) {
-	case *ast.ArrayType, *ast.MapType, *ast.InterfaceType:
+	if tv, ok := info.Types[c.Fun]; ok && tv.IsType() {
 		return []labels{all}
-	case *ast.ParenExpr:
-		_ = f
-		return []labels{all}
-	case *ast.Ident:
-		switch f.Name {
-		case "string", "byte", "rune", "int", "int64", "uint64", "float64", "error", "any", "append", "panic", "print", "println", "copy", "min", "max":
-			return []labels{all}
+	}
+	if strings.HasPrefix(full, "builtin ") {
+		switch full {
+		case "builtin len", "builtin cap", "builtin make", "builtin new", "builtin recover", "builtin delete", "builtin close":
+			return []labels{{}}
 		}
-	case *ast.FuncLit:
-		cl := a.closure(f, "")
-		return a.results(cl)
+		return []labels{all}
 	}
-	if cleanCalls[text] {
-		return []labels{{}}
+	if cleanCalls[full] {
+		return []labels{{}, {}}
 	}
-	// sanitisers
-	if sel == "ReplaceAllString" || sel == "ReplaceAll" {
+	// sanitisers: the only ones
+	if full == "(*regexp.Regexp).ReplaceAllString" {
 		if id, ok := recv.(*ast.Ident); ok {
 			if _, ok := sanitizers[id.Name]; ok {
 				if len(argL) > 0 {
@@ -475,52 +700,55 @@ func (a *analysis) evalCall(c *ast.CallExpr) []labels {
 			}
 		}
 	}
-	// network boundary
-	switch sel {
-	case "Get", "PostForm", "Do":
-		if recv != nil && !recvPkg && (strings.Contains(exprText(recv), "client") || strings.Contains(exprText(recv), "Client")) {
-			l := labels{}
-			if len(argL) > 0 {
-				l = argL[0]
-			}
-			return []labels{{}, l}
+	// network boundary / failure kinds
+	boundary := func(urlL labels, nData int) []labels {
+		id := a.sourceID(c)
+		if recording && !symbolic {
+			sources[id] = source{id: id, fn: a.f.key, call: exprText(c), url: concreteOnly(urlL).String()}
 		}
-		if sel == "Get" && len(c.Args) == 1 {
-			// Header.Get(name): the session token
+		r := make([]labels, nData+1)
+		for i := range r {
+			r[i] = labels{}
+		}
+		r[nData] = a.touch(atSource(id, urlL))
+		return r
+	}
+	first := func() labels {
+		if len(argL) > 0 {
+			return argL[0]
+		}
+		return labels{}
+	}
+	switch full {
+	case "(*net/http.Client).Get", "(*net/http.Client).PostForm", "(*net/http.Client).Do", "(*net/http.Client).Post",
+		"(*net/http.Client).Head":
+		return boundary(first(), 1)
+	case "net/http.NewRequest":
+		r := boundary(union(argL[0], argL[1]), 1)
+		r[0] = union(argL[0], argL[1], atSourceKeep(r[1]))
+		return r
+	case "net/url.Parse":
+		r := boundary(first(), 1)
+		r[0] = first()
+		return r
+	case "(*github.com/tailscale/goexpect.GExpect).Expect":
+		return []labels{{}, {}, first()}
+	case "(net/http.Header).Set", "(net/http.Header).Add", "(net/http.Header).Del":
+		return []labels{{}}
+	case "(net/http.Header).Get":
+		if len(c.Args) == 1 {
 			if bl, ok := c.Args[0].(*ast.BasicLit); ok && strings.EqualFold(strings.Trim(bl.Value, "\"`"), "x-xsrf-token") {
 				return []labels{a.touch(lab("T:token"))}
 			}
 		}
-	case "Expect":
-		l := labels{}
-		if len(argL) > 0 {
-			l = argL[0]
-		}
-		return []labels{{}, {}, l}
-	case "Set", "Add":
-		if recv != nil && strings.HasSuffix(exprText(recv), ".Header") {
-			return []labels{{}}
-		}
+		return []labels{recvL}
 	}
 	// seeds
-	seedKey := sel
-	if text == "cookiejar.New" {
-		seedKey = "New#cookiejar"
-	}
 	var seeded []labels
-	if sd, ok := seedCalls[seedKey]; ok {
-		n := 1
-		for i := range sd {
-			if i+1 > n {
-				n = i + 1
-			}
-		}
-		if seedKey == "GetUserPass" || seedKey == "getSystemPassword" {
-			n = 3
-		} else if seedKey != "New#cookiejar" {
-			n = 2
-		} else {
-			n = 2
+	if sd, ok := seedCalls[full]; ok {
+		n := 2
+		if sig, ok := info.TypeOf(c.Fun).(*types.Signature); ok {
+			n = sig.Results().Len()
 		}
 		seeded = make([]labels, n)
 		for i := range seeded {
@@ -530,8 +758,7 @@ func (a *analysis) evalCall(c *ast.CallExpr) []labels {
 			}
 		}
 	}
-	// module functions, local closures, function-typed parameters
-	ts := a.targets(text, sel, recv)
+	// module functions, closures, function-typed parameters, interface methods
 	if len(ts) > 0 {
 		var res []labels
 		for _, t := range ts {
@@ -541,7 +768,7 @@ func (a *analysis) evalCall(c *ast.CallExpr) []labels {
 					j = len(t.params) - 1 // variadic tail
 				}
 				if j >= 0 && !symbolic {
-					setLabels(paramTaint, t.key, j, argL[i])
+					setLabels(paramTaint, t, j, argL[i])
 				}
 			}
 			r := a.resultsAt(t, argL)
@@ -574,13 +801,22 @@ func (a *analysis) evalCall(c *ast.CallExpr) []labels {
 	return []labels{r, r, r}
 }
 
-// resultsAt: the return summary of t with its parameter markers replaced by the labels of the
-// arguments at this call site.
+// the request built by http.NewRequest carries the URL labels, attributed to that call
+func atSourceKeep(l labels) labels {
+	r := labels{}
+	for k := range l {
+		if !strings.HasPrefix(k, "U") {
+			r[k] = true
+		}
+	}
+	return r
+}
+
 func (a *analysis) resultsAt(t *fn, argL []labels) []labels {
 	r := make([]labels, t.nres)
 	for j := range r {
 		r[j] = labels{}
-		for k := range getLabels(retTaint, t.key, j) {
+		for k := range getLabels(retTaint, t, j) {
 			r[j].add(subst(k, func(key string, i int) (labels, bool) {
 				if key != t.key {
 					return nil, false
@@ -603,111 +839,79 @@ func (a *analysis) resultsAt(t *fn, argL []labels) []labels {
 	return r
 }
 
-func (a *analysis) results(t *fn) []labels {
-	n := t.nres
-	r := make([]labels, n)
-	for i := range r {
-		r[i] = resolve(getLabels(retTaint, t.key, i).clone())
+func (a *analysis) record(sink, kind string, args []ast.Expr, l labels) {
+	var parts []string
+	for _, arg := range args {
+		parts = append(parts, exprText(arg))
+	}
+	l = concreteKeepProv(l)
+	if a.f.top.wrapper != "" {
+		// a primitive write inside a sink wrapper: its arguments are the wrapper's parameters,
+		// which are accounted for at every call of the wrapper
+		l = lab("wrapper")
+	}
+	sites = append(sites, site{pkg: a.f.pkg, fn: a.f.key, sink: sink, kind: kind, arg: strings.Join(parts, ", "), lbl: l})
+}
+
+func concreteKeepProv(l labels) labels {
+	r := labels{}
+	for k := range l {
+		if strings.HasPrefix(k, "T:") || strings.HasPrefix(k, "M:") || strings.HasPrefix(k, "U@") {
+			r[k] = true
+		}
 	}
 	return r
 }
 
-// targets resolves a call to module functions / closures (by bare name).
-func (a *analysis) targets(text, sel string, recv ast.Expr) []*fn {
-	if recv == nil {
-		if c := a.local[text]; c != nil {
-			return []*fn{c}
-		}
-		// function-typed parameter of an enclosing function
-		for f := a.f; f != nil; f = parentOf(f) {
-			for _, p := range f.params {
-				if p == text {
-					return litTargets[f.key+"#"+p]
-				}
-			}
-		}
-		var r []*fn
-		for _, f := range byName[text] {
-			if f.pkg == a.f.pkg {
-				r = append(r, f)
-			}
-		}
-		return r
-	}
-	if id, ok := recv.(*ast.Ident); ok && a.imports[id.Name] {
-		// pkg.Func: a module package?
-		var r []*fn
-		for _, f := range byName[sel] {
-			if f.pkg == id.Name {
-				r = append(r, f)
-			}
-		}
-		return r
-	}
-	switch sel {
-	case "String", "Error", "Close", "Set", "Get", "Write", "Run", "Len":
-		return nil
-	}
-	return byName[sel]
-}
-
-func parentOf(f *fn) *fn {
-	i := strings.LastIndex(f.key, "$")
-	if i < 0 {
-		return nil
-	}
-	return funcs[f.key[:i]]
-}
-
-func (a *analysis) record(sink string, c *ast.CallExpr, l labels) {
-	if symbolic || a.f.pkg == "errlog" {
-		return
-	}
-	var parts []string
-	for _, arg := range c.Args {
-		parts = append(parts, exprText(arg))
-	}
-	sites = append(sites, site{pkg: a.f.pkg, fn: a.f.key, sink: sink, arg: strings.Join(parts, ", "), lbl: l.clone()})
-}
-
-func (a *analysis) assign(lhs ast.Expr, l labels, define, augment bool) {
+func (a *analysis) assign(lhs ast.Expr, l labels, augment bool) {
 	switch x := lhs.(type) {
 	case *ast.Ident:
 		if x.Name == "_" {
 			return
 		}
+		o := objOf(x)
+		if o == nil {
+			return
+		}
 		if augment {
-			a.env[x.Name] = union(a.env[x.Name], l)
+			a.env[o] = union(a.env[o], l)
 		} else {
-			a.env[x.Name] = l.clone()
+			a.env[o] = l.clone()
 		}
 		a.touch(l)
 	default:
-		root := rootIdent(lhs)
-		if sel, ok := lhs.(*ast.SelectorExpr); ok {
-			if fieldTaint[sel.Sel.Name] == nil {
-				fieldTaint[sel.Sel.Name] = labels{}
-			}
-			if !symbolic && fieldTaint[sel.Sel.Name].add(l) {
-				changed = true
+		if se, ok := lhs.(*ast.SelectorExpr); ok {
+			if sel := info.Selections[se]; sel != nil && sel.Kind() == types.FieldVal {
+				if v, ok := sel.Obj().(*types.Var); ok && !symbolic {
+					if fieldTaint[v] == nil {
+						fieldTaint[v] = labels{}
+					}
+					if fieldTaint[v].add(concreteKeepProv(l)) {
+						changed = true
+					}
+				}
 			}
 		}
-		if root != nil && !a.isParam[root.Name] {
-			a.env[root.Name] = union(a.env[root.Name], l)
+		if root := rootIdent(lhs); root != nil {
+			if o := objOf(root); o != nil && !a.isParam[o] {
+				if _, isPkg := o.(*types.PkgName); !isPkg {
+					a.env[o] = union(a.env[o], l)
+				}
+			}
 		}
 		a.touch(l)
 	}
 }
 
-func (a *analysis) snapshot() map[string]labels {
-	s := map[string]labels{}
+func (a *analysis) snapshot() map[types.Object]labels {
+	s := map[types.Object]labels{}
 	for k, v := range a.env {
 		s[k] = v.clone()
 	}
 	return s
 }
 
-func (a *analysis) join(pre map[string]labels) {
+func (a *analysis) join(pre map[types.Object]labels) {
 	for k, v := range pre {
 		a.env[k] = union(a.env[k], v)
 	}
@@ -728,6 +932,16 @@ func (a *analysis) branch(f func()) {
 	a.join(pre)
 }
 
+func (a *analysis) twice(f func()) {
+	a.branch(func() {
+		f()
+		rec := recording
+		recording = false
+		f()
+		recording = rec
+	})
+}
+
 func (a *analysis) stmt(s ast.Stmt) {
 	switch x := s.(type) {
 	case nil:
@@ -736,18 +950,35 @@ func (a *analysis) stmt(s ast.Stmt) {
 	case *ast.ExprStmt:
 		if c, ok := x.X.(*ast.CallExpr); ok {
 			a.evalCall(c)
-			// mutator: external method call with tainted arguments taints the receiver variable
-			text, sel, recv := calleeText(c)
-			if recv != nil && len(a.targets(text, sel, recv)) == 0 && !strings.Contains(exprText(recv), ".Header") {
-				if root := rootIdent(recv); root != nil && !a.imports[root.Name] && !a.isParam[root.Name] {
-					l := labels{}
-					for _, arg := range c.Args {
-						if _, ok := arg.(*ast.FuncLit); !ok {
-							l.add(a.eval(arg))
+			// mutator: external method call with labelled arguments labels the receiver variable
+			full, ts, recv, _ := a.callee(c)
+			_, _, _, isSink := a.sinkOf(full, c, recv)
+			if recv != nil && len(ts) == 0 && !isSink && !strings.HasPrefix(full, "(net/http.Header)") {
+				if root := rootIdent(recv); root != nil {
+					if o := objOf(root); o != nil && !a.isParam[o] {
+						if _, isPkg := o.(*types.PkgName); !isPkg {
+							l := labels{}
+							for _, arg := range c.Args {
+								if _, ok := arg.(*ast.FuncLit); !ok {
+									l.add(a.eval(arg))
+								}
+							}
+							if len(l) > 0 {
+								a.env[o] = union(a.env[o], l)
+							}
 						}
 					}
-					if len(l) > 0 && !sinkNames[text] {
-						a.env[root.Name] = union(a.env[root.Name], l)
+				}
+			}
+			// fmt.Fprint* into a strings.Builder labels the builder
+			if (full == "fmt.Fprint" || full == "fmt.Fprintf" || full == "fmt.Fprintln") && len(c.Args) > 0 && isBuilderWriter(c.Args[0]) {
+				if root := rootIdent(c.Args[0]); root != nil {
+					if o := objOf(root); o != nil {
+						l := labels{}
+						for _, arg := range c.Args[1:] {
+							l.add(a.eval(arg))
+						}
+						a.env[o] = union(a.env[o], l)
 					}
 				}
 			}
@@ -762,15 +993,14 @@ func (a *analysis) stmt(s ast.Stmt) {
 			case *ast.CallExpr:
 				res = a.evalCall(r)
 			default:
-				l := a.eval(r)
-				res = []labels{l, {}}
+				res = []labels{a.eval(r), {}}
 			}
 			for i, lhs := range x.Lhs {
 				l := labels{}
 				if i < len(res) {
 					l = res[i]
 				}
-				a.assign(lhs, l, x.Tok == token.DEFINE, augment)
+				a.assign(lhs, l, augment)
 			}
 			return
 		}
@@ -780,16 +1010,14 @@ func (a *analysis) stmt(s ast.Stmt) {
 			}
 			if lit, ok := x.Rhs[i].(*ast.FuncLit); ok {
 				if id, ok := lhs.(*ast.Ident); ok {
-					// name := func(...) {...}: register first (recursive closures), analyse now
-					key := a.f.key + "$" + id.Name
-					if funcs[key] != nil {
-						a.local[id.Name] = funcs[key]
+					if v, ok := objOf(id).(*types.Var); ok {
+						litVar[v] = fnByLit[lit]
 					}
-					a.local[id.Name] = a.closure(lit, id.Name)
+					a.closure(lit)
 					continue
 				}
 			}
-			a.assign(lhs, a.eval(x.Rhs[i]), x.Tok == token.DEFINE, augment)
+			a.assign(lhs, a.eval(x.Rhs[i]), augment)
 		}
 	case *ast.DeclStmt:
 		if gd, ok := x.Decl.(*ast.GenDecl); ok {
@@ -800,7 +1028,7 @@ func (a *analysis) stmt(s ast.Stmt) {
 						if i < len(vs.Values) {
 							l = a.eval(vs.Values[i])
 						}
-						a.assign(n, l, true, false)
+						a.assign(n, l, false)
 					}
 				}
 			}
@@ -810,7 +1038,7 @@ func (a *analysis) stmt(s ast.Stmt) {
 			if c, ok := x.Results[0].(*ast.CallExpr); ok {
 				for i, l := range a.evalCall(c) {
 					if i < a.f.nres && symbolic {
-						setLabels(retTaint, a.f.key, i, l)
+						setLabels(retTaint, a.f, i, l)
 					}
 				}
 				return
@@ -819,7 +1047,7 @@ func (a *analysis) stmt(s ast.Stmt) {
 		for i, r := range x.Results {
 			l := a.eval(r)
 			if symbolic {
-				setLabels(retTaint, a.f.key, i, l)
+				setLabels(retTaint, a.f, i, l)
 			}
 		}
 	case *ast.IfStmt:
@@ -832,29 +1060,19 @@ func (a *analysis) stmt(s ast.Stmt) {
 	case *ast.ForStmt:
 		a.stmt(x.Init)
 		a.eval(x.Cond)
-		a.branch(func() {
+		a.twice(func() {
 			a.block(x.Body)
 			a.stmt(x.Post)
-			rec := recording
-			recording = false
-			a.block(x.Body)
-			recording = rec
 		})
 	case *ast.RangeStmt:
 		l := a.eval(x.X)
 		if x.Key != nil {
-			a.assign(x.Key, labels{}, true, false)
+			a.assign(x.Key, labels{}, false)
 		}
 		if x.Value != nil {
-			a.assign(x.Value, l, true, false)
+			a.assign(x.Value, l, false)
 		}
-		a.branch(func() {
-			a.block(x.Body)
-			rec := recording
-			recording = false
-			a.block(x.Body)
-			recording = rec
-		})
+		a.twice(func() { a.block(x.Body) })
 	case *ast.SwitchStmt:
 		a.stmt(x.Init)
 		a.eval(x.Tag)
@@ -902,7 +1120,94 @@ func (a *analysis) stmt(s ast.Stmt) {
 	}
 }
 
-// ---------------------------------------------------------------- main
+func analyse(f *fn) {
+	a := &analysis{f: f, env: map[types.Object]labels{}, isParam: map[types.Object]bool{}, sticky: map[types.Object]labels{}}
+	if f.recv != nil {
+		a.isParam[f.recv] = true
+	}
+	for i, p := range f.params {
+		a.isParam[p] = true
+		a.env[p] = paramLabels(f, i)
+		a.touch(a.env[p])
+	}
+	// sticky seed: whatever is handed to parseAPIKey holds the key (the device's keygen response)
+	ast.Inspect(f.body, func(n ast.Node) bool {
+		if c, ok := n.(*ast.CallExpr); ok {
+			if full, _, _, _ := a.callee(c); full == modPrefix+"panos.parseAPIKey" {
+				for _, arg := range c.Args {
+					if r := rootIdent(arg); r != nil {
+						if o := objOf(r); o != nil {
+							a.sticky[o] = lab("T:key")
+							touched[f.top] = true
+						}
+					}
+				}
+			}
+		}
+		return true
+	})
+	a.block(f.body)
+}
+
+func analyseBoth(f *fn) {
+	symbolic = true
+	analyse(f)
+	symbolic = false
+	analyse(f)
+}
+
+// ---------------------------------------------------------------- loading
+
+type pkgSrc struct {
+	name, path string
+	files      []*ast.File
+	imports    map[string]bool
+}
+
+type modImporter struct {
+	done     map[string]*types.Package
+	fallback types.Importer
+}
+
+func (m *modImporter) Import(path string) (*types.Package, error) {
+	if p, ok := m.done[path]; ok {
+		return p, nil
+	}
+	if strings.HasPrefix(path, modPrefix) {
+		return nil, fmt.Errorf("module package %s not yet checked (import cycle?)", path)
+	}
+	return m.fallback.Import(path)
+}
+
+type fallbackImporter struct{ gc, src types.Importer }
+
+func (f fallbackImporter) Import(path string) (*types.Package, error) {
+	if p, err := f.gc.Import(path); err == nil {
+		return p, nil
+	}
+	return f.src.Import(path)
+}
+
+func newFallback() types.Importer {
+	src := importer.ForCompiler(fset, "source", nil)
+	out, err := exec.Command("go", "list", "-e", "-export", "-deps", "-f", "{{.ImportPath}} {{.Export}}", "./pkg/...").Output()
+	if err != nil {
+		return src
+	}
+	exports := map[string]string{}
+	for _, line := range strings.Split(string(out), "\n") {
+		if f := strings.Fields(line); len(f) == 2 {
+			exports[f[0]] = f[1]
+		}
+	}
+	lookup := func(path string) (io.ReadCloser, error) {
+		if e, ok := exports[path]; ok {
+			return os.Open(e)
+		}
+		return nil, fmt.Errorf("no export data for %s", path)
+	}
+	return fallbackImporter{importer.ForCompiler(fset, "gc", lookup), src}
+}
 
 func isVerifFile(f *ast.File, name string) bool {
 	if strings.HasPrefix(filepath.Base(name), "verif_") {
@@ -919,6 +1224,71 @@ func isVerifFile(f *ast.File, name string) bool {
 		}
 	}
 	return false
+}
+
+func nres(ft *ast.FuncType) int {
+	n := 0
+	if ft.Results != nil {
+		for _, r := range ft.Results.List {
+			k := len(r.Names)
+			if k == 0 {
+				k = 1
+			}
+			n += k
+		}
+	}
+	return n
+}
+
+func paramVars(ft *ast.FuncType) []*types.Var {
+	var r []*types.Var
+	for _, p := range ft.Params.List {
+		if len(p.Names) == 0 {
+			r = append(r, nil)
+		}
+		for _, n := range p.Names {
+			v, _ := info.Defs[n].(*types.Var)
+			r = append(r, v)
+		}
+	}
+	return r
+}
+
+// registerLits gives every function literal below a declaration its key (source order).
+func registerLits(top *fn, parent *fn, body ast.Node, counter *int) {
+	ast.Inspect(body, func(n ast.Node) bool {
+		switch x := n.(type) {
+		case *ast.AssignStmt:
+			for i, rhs := range x.Rhs {
+				if lit, ok := rhs.(*ast.FuncLit); ok && i < len(x.Lhs) {
+					if id, ok := x.Lhs[i].(*ast.Ident); ok {
+						mkLit(top, parent, lit, id.Name, counter)
+					}
+				}
+			}
+		case *ast.FuncLit:
+			if fnByLit[x] == nil {
+				mkLit(top, parent, x, "", counter)
+			}
+			return false
+		}
+		return true
+	})
+}
+
+func mkLit(top, parent *fn, lit *ast.FuncLit, name string, counter *int) {
+	if fnByLit[lit] != nil {
+		return
+	}
+	*counter++
+	if name == "" {
+		name = fmt.Sprintf("lit%d", *counter)
+	}
+	c := &fn{key: parent.key + "$" + name, pkg: top.pkg, body: lit.Body, nres: nres(lit.Type), top: top, parent: parent,
+		params: paramVars(lit.Type)}
+	fnByLit[lit] = c
+	fnByKey[c.key] = c
+	registerLits(top, c, lit.Body, counter)
 }
 
 func leanStr(s string) string {
@@ -948,18 +1318,21 @@ func main() {
 	repo := flag.String("repo", "/repo", "repository root")
 	out := flag.String("out", "", "Lean file to write (default stdout)")
 	flag.Parse()
-	pkgRoot := filepath.Join(*repo, "go", "pkg")
-	dirs, err := os.ReadDir(pkgRoot)
-	if err != nil {
-		fmt.Fprintln(os.Stderr, err)
+	root := filepath.Join(*repo, "go")
+	if err := os.Chdir(root); err != nil {
+		fmt.Fprintln(os.Stderr, "sinks:", err)
 		os.Exit(1)
 	}
-	var order []*fn
-	for _, d := range dirs {
-		if !d.IsDir() {
+	dirs, _ := filepath.Glob(filepath.Join(root, "pkg", "*"))
+	sort.Strings(dirs)
+	pkgs := map[string]*pkgSrc{}
+	for _, dir := range dirs {
+		if fi, err := os.Stat(dir); err != nil || !fi.IsDir() {
 			continue
 		}
-		files, _ := filepath.Glob(filepath.Join(pkgRoot, d.Name(), "*.go"))
+		name := filepath.Base(dir)
+		p := &pkgSrc{name: name, path: modPrefix + name, imports: map[string]bool{}}
+		files, _ := filepath.Glob(filepath.Join(dir, "*.go"))
 		sort.Strings(files)
 		for _, file := range files {
 			if strings.HasSuffix(file, "_test.go") {
@@ -967,55 +1340,134 @@ func main() {
 			}
 			af, err := parser.ParseFile(fset, file, nil, parser.ParseComments)
 			if err != nil {
-				fmt.Fprintln(os.Stderr, err)
+				fmt.Fprintln(os.Stderr, "sinks:", err)
 				os.Exit(1)
 			}
 			if isVerifFile(af, file) {
 				continue
 			}
+			p.files = append(p.files, af)
+			for _, im := range af.Imports {
+				ip := strings.Trim(im.Path.Value, "\"")
+				if strings.HasPrefix(ip, modPrefix) {
+					p.imports[ip] = true
+				}
+			}
+		}
+		if len(p.files) > 0 {
+			pkgs[p.path] = p
+		}
+	}
+	info = &types.Info{
+		Types:      map[ast.Expr]types.TypeAndValue{},
+		Uses:       map[*ast.Ident]types.Object{},
+		Defs:       map[*ast.Ident]types.Object{},
+		Selections: map[*ast.SelectorExpr]*types.Selection{},
+	}
+	imp := &modImporter{done: map[string]*types.Package{}, fallback: newFallback()}
+	var sorted []*pkgSrc
+	for len(sorted) < len(pkgs) {
+		progress := false
+		var paths []string
+		for p := range pkgs {
+			paths = append(paths, p)
+		}
+		sort.Strings(paths)
+		for _, path := range paths {
+			p := pkgs[path]
+			if imp.done[path] != nil {
+				continue
+			}
+			ready := true
+			for d := range p.imports {
+				if imp.done[d] == nil && pkgs[d] != nil {
+					ready = false
+				}
+			}
+			if !ready {
+				continue
+			}
+			conf := types.Config{Importer: imp, Error: func(err error) { problems = append(problems, fmt.Sprintf("type error: %v", err)) }}
+			tp, _ := conf.Check(path, fset, p.files, info)
+			imp.done[path] = tp
+			sorted = append(sorted, p)
+			progress = true
+		}
+		if !progress {
+			problems = append(problems, "import cycle among module packages")
+			break
+		}
+	}
+	// declarations
+	for _, p := range sorted {
+		tp := imp.done[p.path]
+		if tp == nil {
+			continue
+		}
+		for _, n := range tp.Scope().Names() {
+			if tn, ok := tp.Scope().Lookup(n).(*types.TypeName); ok {
+				if nt, ok := tn.Type().(*types.Named); ok {
+					named = append(named, nt)
+				}
+			}
+		}
+		if p.name == "program" {
+			if tn, ok := tp.Scope().Lookup("Config").(*types.TypeName); ok {
+				if st, ok := tn.Type().Underlying().(*types.Struct); ok {
+					for i := 0; i < st.NumFields(); i++ {
+						if st.Field(i).Name() == "Password" {
+							passwordF = st.Field(i)
+						}
+					}
+				}
+			}
+		}
+		for _, af := range p.files {
 			for _, decl := range af.Decls {
 				fd, ok := decl.(*ast.FuncDecl)
 				if !ok || fd.Body == nil {
 					continue
 				}
-				f := &fn{pkg: d.Name(), name: fd.Name.Name, body: fd.Body, file: af}
-				f.key = d.Name() + "." + fd.Name.Name
+				obj, _ := info.Defs[fd.Name].(*types.Func)
+				f := &fn{pkg: p.name, body: fd.Body, nres: nres(fd.Type), params: paramVars(fd.Type)}
+				f.key = p.name + "." + fd.Name.Name
 				if fd.Recv != nil && len(fd.Recv.List) > 0 {
 					t := exprText(fd.Recv.List[0].Type)
-					f.key = d.Name() + "." + strings.TrimPrefix(t, "*") + "." + fd.Name.Name
-				}
-				for _, p := range fd.Type.Params.List {
-					if len(p.Names) == 0 {
-						f.params = append(f.params, "_")
-					}
-					for _, n := range p.Names {
-						f.params = append(f.params, n.Name)
-					}
-				}
-				if fd.Type.Results != nil {
-					for _, r := range fd.Type.Results.List {
-						k := len(r.Names)
-						if k == 0 {
-							k = 1
-						}
-						f.nres += k
+					f.key = p.name + "." + strings.TrimPrefix(t, "*") + "." + fd.Name.Name
+					if len(fd.Recv.List[0].Names) > 0 {
+						f.recv, _ = info.Defs[fd.Recv.List[0].Names[0]].(*types.Var)
 					}
 				}
 				f.top = f
-				funcs[f.key] = f
-				byName[f.name] = append(byName[f.name], f)
+				if obj != nil {
+					fnByObj[obj] = f
+					f.wrapper = wrappers[obj.FullName()]
+				}
+				fnByKey[f.key] = f
 				order = append(order, f)
+				n := 0
+				registerLits(f, f, fd.Body, &n)
 			}
 		}
 	}
-	// Phase A: fixpoint of everything.  Phase B: labels only ever grow, so values of parameters and
-	// fields that were computed from not yet complete return summaries may be too large; keep the
-	// summaries, reset parameters and fields, and iterate again until the summaries are stable too.
+	if passwordF == nil {
+		problems = append(problems, "field program.Config.Password not found")
+	}
+	for w := range wrappers {
+		found := false
+		for o := range fnByObj {
+			found = found || o.FullName() == w
+		}
+		if !found {
+			problems = append(problems, "sink wrapper not found in the source: "+w)
+		}
+	}
+
 	fixpoint := func() {
 		for round := 0; round < 60; round++ {
 			changed = false
 			for _, f := range order {
-				analyseWithRecv(f)
+				analyseBoth(f)
 			}
 			if !changed {
 				return
@@ -1035,11 +1487,15 @@ func main() {
 		}
 		return n
 	}
+	// Phase A: fixpoint of everything.  Phase B: labels only grow, so parameters and fields computed
+	// from incomplete summaries may be too large: keep the summaries, reset the rest, iterate again.
 	for phase := 0; phase < 10; phase++ {
-		paramTaint = map[string][]labels{}
-		// the field that holds the password given on the command line
-		fieldTaint = map[string]labels{"Password": lab("T:pass")}
-		touched = map[string]bool{}
+		paramTaint = map[*fn][]labels{}
+		fieldTaint = map[*types.Var]labels{}
+		if passwordF != nil {
+			fieldTaint[passwordF] = lab("T:pass")
+		}
+		touched = map[*fn]bool{}
 		before := retSize()
 		fixpoint()
 		if phase > 0 && retSize() == before {
@@ -1049,7 +1505,7 @@ func main() {
 	recording = true
 	sites = nil
 	for _, f := range order {
-		analyseWithRecv(f)
+		analyseBoth(f)
 	}
 	if len(problems) > 0 {
 		sort.Strings(problems)
@@ -1059,71 +1515,123 @@ func main() {
 		os.Exit(1)
 	}
 
-	// output
+	// ---------------------------------------------------------------- output
 	var b strings.Builder
 	b.WriteString("/-! GENERATED by translate/sinks from the working tree of the repository — do not edit.\n")
-	b.WriteString("Every call that writes to a sink inside a function in which a secret is in scope. -/\n")
+	b.WriteString("Every call of the module that writes to a sink; the failure kinds whose error text embeds a request\nURL; where those texts flow. -/\n")
 	b.WriteString("namespace NA.Gen.Sinks\n\n")
-	b.WriteString("structure Site where\n  id : Nat\n  taintCode : Nat\n  pkg : String\n  fn : String\n  sink : String\n  arg : String\n  taint : String\n\n")
+	b.WriteString("/-- kindCode: 1 session log, 2 run log, 3 history, 4 status file, 5 stdout, 6 stderr, 7 temporary file, 8 other file -/\n")
+	b.WriteString("structure Site where\n  id : Nat\n  taintCode : Nat\n  kindCode : Nat\n  kind : String\n  pkg : String\n  fn : String\n  sink : String\n  arg : String\n  taint : String\n\n")
 	b.WriteString("def sites : List Site := [\n")
 	ord := map[string]int{}
-	n := 0
-	var kept []site
-	for _, s := range sites {
-		top := s.fn
-		if i := strings.Index(top, "$"); i >= 0 {
-			top = top[:i]
-		}
-		// console.Conn carries the session over which the password is sent; doapprove copies run-log
-		// lines into history and stdout: their sinks are always listed
-		if !touched[top] && s.lbl.code() == 0 && s.pkg != "console" && s.pkg != "doapprove" {
-			continue
-		}
-		kept = append(kept, s)
-	}
-	for i, s := range kept {
-		base := s.pkg + "|" + s.fn + "|" + s.sink + "|" + s.arg + "|" + s.lbl.String()
+	siteID := make([]uint32, len(sites))
+	for i, s := range sites {
+		base := s.pkg + "|" + s.fn + "|" + s.sink + "|" + s.kind + "|" + s.arg + "|" + s.lbl.String()
 		ord[base]++
-		h := fnv.New32a()
-		h.Write([]byte(fmt.Sprintf("%s|%d", base, ord[base])))
+		siteID[i] = hash32(fmt.Sprintf("%s|%d", base, ord[base]))
 		sep := ","
-		if i == len(kept)-1 {
+		if i == len(sites)-1 {
 			sep = ""
 		}
-		fmt.Fprintf(&b, "  { id := %d, taintCode := %d, pkg := %s, fn := %s, sink := %s, arg := %s, taint := %s }%s\n",
-			h.Sum32(), s.lbl.code(), leanStr(s.pkg), leanStr(s.fn), leanStr(s.sink), leanStr(s.arg), leanStr(s.lbl.String()), sep)
-		n++
+		kc := map[string]int{"session": 1, "runlog": 2, "history": 3, "status": 4, "stdout": 5, "stderr": 6, "tempfile": 7}[s.kind]
+		if kc == 0 {
+			kc = 8
+		}
+		fmt.Fprintf(&b, "  { id := %d, taintCode := %d, kindCode := %d, kind := %s, pkg := %s, fn := %s, sink := %s, arg := %s, taint := %s }%s\n",
+			siteID[i], s.lbl.code(), kc, leanStr(s.kind), leanStr(s.pkg), leanStr(s.fn), leanStr(s.sink), leanStr(s.arg), leanStr(s.lbl.String()), sep)
 	}
 	b.WriteString("]\n\n")
-	// summary of the fixpoint: which functions return / receive labelled values
+
+	b.WriteString("/-- A failure kind: a call whose error text embeds the request URL. -/\n")
+	b.WriteString("structure ErrSource where\n  id : Nat\n  urlCode : Nat\n  fn : String\n  call : String\n  url : String\n\n")
+	var sids []string
+	for id := range sources {
+		sids = append(sids, id)
+	}
+	sort.Slice(sids, func(i, j int) bool {
+		a, c := sources[sids[i]], sources[sids[j]]
+		if a.fn != c.fn {
+			return a.fn < c.fn
+		}
+		return a.call < c.call
+	})
+	b.WriteString("def errSources : List ErrSource := [\n")
+	for i, id := range sids {
+		s := sources[id]
+		code := 0
+		if s.url != "clean" {
+			code = 9
+			if !strings.Contains(s.url, "T:") {
+				code = 1
+			}
+		}
+		sep := ","
+		if i == len(sids)-1 {
+			sep = ""
+		}
+		fmt.Fprintf(&b, "  { id := %s, urlCode := %d, fn := %s, call := %s, url := %s }%s\n", id, code, leanStr(s.fn), leanStr(s.call), leanStr(s.url), sep)
+	}
+	b.WriteString("]\n\n")
+
+	b.WriteString("/-- The error text of failure kind `source` reaches sink site `site`; `raw`: a secret of the URL is\nstill unmasked there; `masked`: it passed a redaction step. -/\n")
+	b.WriteString("structure ErrFlow where\n  source : Nat\n  site : Nat\n  raw : Bool\n  masked : Bool\n  labels : String\n\n")
+	b.WriteString("def errFlows : List ErrFlow := [\n")
+	var flows []string
+	for i, s := range sites {
+		bySrc := map[string][]string{}
+		for k := range s.lbl {
+			if base, at, ok := strings.Cut(k, "@"); ok {
+				bySrc[at] = append(bySrc[at], base)
+			}
+		}
+		var srcs []string
+		for at := range bySrc {
+			srcs = append(srcs, at)
+		}
+		sort.Strings(srcs)
+		for _, at := range srcs {
+			ls := bySrc[at]
+			sort.Strings(ls)
+			raw, masked := false, false
+			for _, l := range ls {
+				raw = raw || strings.HasPrefix(l, "T:")
+				masked = masked || strings.HasPrefix(l, "M:")
+			}
+			flows = append(flows, fmt.Sprintf("  { source := %s, site := %d, raw := %v, masked := %v, labels := %s }", at, siteID[i], raw, masked, leanStr(strings.Join(ls, "+"))))
+		}
+	}
+	b.WriteString(strings.Join(flows, ",\n"))
+	b.WriteString("\n]\n\n")
+
+	// summary of the fixpoint (documentation)
 	var keys []string
-	for k, v := range retTaint {
+	add := func(s string) {
+		if strings.Contains(s, "T:") || strings.Contains(s, "M:") {
+			keys = append(keys, s)
+		}
+	}
+	for f, v := range retTaint {
 		for i, l := range v {
 			if len(l) > 0 {
-				keys = append(keys, fmt.Sprintf("%s result %d: %s", k, i, l))
+				add(fmt.Sprintf("%s result %d: %s", f.key, i, l))
 			}
 		}
 	}
-	for k, v := range paramTaint {
+	for f, v := range paramTaint {
 		for i, l := range v {
 			if len(l) > 0 {
-				keys = append(keys, fmt.Sprintf("%s param %d: %s", k, i, l))
+				add(fmt.Sprintf("%s param %d: %s", f.key, i, l))
 			}
 		}
 	}
-	for k, l := range fieldTaint {
+	for v, l := range fieldTaint {
 		if len(l) > 0 {
-			keys = append(keys, fmt.Sprintf("field %s: %s", k, l))
-		}
-	}
-	{
-		var ks []string
-		for _, k := range keys {
-			if strings.Contains(k, "T:") || strings.Contains(k, "M:") {
-				ks = append(ks, k)
+			pk := ""
+			if v.Pkg() != nil {
+				pk = v.Pkg().Name() + "."
 			}
+			add(fmt.Sprintf("field %s%s: %s", pk, v.Name(), l))
 		}
-		keys = ks
 	}
 	sort.Strings(keys)
 	b.WriteString("/-- Flow summary of the fixpoint (documentation). -/\ndef flows : List String := [\n")
@@ -1137,76 +1645,16 @@ func main() {
 	b.WriteString("]\n\nend NA.Gen.Sinks\n")
 	if *out == "" {
 		fmt.Print(b.String())
-	} else {
-		os.MkdirAll(filepath.Dir(*out), 0755)
-		if err := os.WriteFile(*out, []byte(b.String()), 0644); err != nil {
-			fmt.Fprintln(os.Stderr, err)
-			os.Exit(1)
-		}
-		fmt.Printf("sinks: %d sites in %d functions with a secret in scope\n", n, len(touched))
-	}
-}
-
-func analyseWithRecv(f *fn) {
-	symbolic = true
-	analyseRecv(f)
-	symbolic = false
-	analyseRecv(f)
-}
-
-func analyseRecv(f *fn) {
-	recv := ""
-	for _, decl := range f.file.Decls {
-		if fd, ok := decl.(*ast.FuncDecl); ok && fd.Body == f.body && fd.Recv != nil && len(fd.Recv.List) > 0 &&
-			len(fd.Recv.List[0].Names) > 0 {
-			recv = fd.Recv.List[0].Names[0].Name
-		}
-	}
-	if recv != "" {
-		saved := f.params
-		f.params = append([]string{}, f.params...)
-		// the receiver is registered as a parameter name only for field assignments; it is not indexed
-		defer func() { f.params = saved }()
-		analyseNamed(f, recv)
 		return
 	}
-	analyseNamed(f, "")
-}
-
-func analyseNamed(f *fn, recv string) {
-	a := &analysis{f: f, env: map[string]labels{}, isParam: map[string]bool{}, local: map[string]*fn{},
-		imports: map[string]bool{}, sticky: map[string]labels{}, sinkOrd: map[string]int{}}
-	if recv != "" {
-		a.isParam[recv] = true
+	os.MkdirAll(filepath.Dir(*out), 0755)
+	if old, err := os.ReadFile(*out); err == nil && string(old) == b.String() {
+		fmt.Printf("sinks: %d sites, %d failure kinds, %d flows (unchanged)\n", len(sites), len(sids), len(flows))
+		return
 	}
-	for _, im := range f.file.Imports {
-		p := strings.Trim(im.Path.Value, "\"")
-		n := filepath.Base(p)
-		if im.Name != nil {
-			n = im.Name.Name
-		}
-		if n == "goexpect" {
-			n = "expect"
-		}
-		a.imports[n] = true
+	if err := os.WriteFile(*out, []byte(b.String()), 0644); err != nil {
+		fmt.Fprintln(os.Stderr, "sinks:", err)
+		os.Exit(1)
 	}
-	for i, p := range f.params {
-		a.isParam[p] = true
-		a.env[p] = paramLabels(f.key, i)
-		a.touch(a.env[p])
-	}
-	ast.Inspect(f.body, func(n ast.Node) bool {
-		if c, ok := n.(*ast.CallExpr); ok {
-			if _, sel, _ := calleeText(c); sel == "parseAPIKey" {
-				for _, arg := range c.Args {
-					if r := rootIdent(arg); r != nil {
-						a.sticky[r.Name] = lab("T:key")
-						touched[f.top.key] = true
-					}
-				}
-			}
-		}
-		return true
-	})
-	a.block(f.body)
+	fmt.Printf("sinks: %d sites, %d failure kinds, %d flows\n", len(sites), len(sids), len(flows))
 }
